@@ -20,44 +20,44 @@ func init() {
 func init() {
 	props["C12"] = propCfg{Level: "exploration",
 		Assume: []string{"a panic in any goroutine kills the worker process and is attributed to the input journalled before the call", "hang = all gtree goroutines blocked with unchanged ids in two observations >= 300 ms apart"},
-		Rule: "cases: degenerate list, blank-only family, size extremes (64 KiB lines, 20k-100k roots, depth 600-2000), grammar-aware mutations of valid documents, raw biased byte strings, programmatic trees with hostile names; each through every entry point (output text/branch/json/yaml/toml/dry-run, walk, mkdir dry-run and real in a jail, verify strict/non-strict) x {simple, massive}; one evaluation = one real call watched for panic (recover + process death), deadlock (goroutine monitor) and, for blank-only input, empty output and nil; distinct key = hash(input bytes, entry point, mode); non-trivial = non-empty input"}
+		Rule:   "cases: degenerate list, blank-only family, size extremes (64 KiB lines, 20k-100k roots, depth 600-2000), grammar-aware mutations of valid documents, raw biased byte strings, programmatic trees with hostile names; each through every entry point (output text/branch/json/yaml/toml/dry-run, walk, mkdir dry-run and real in a jail, verify strict/non-strict) x {simple, massive}; one evaluation = one real call watched for panic (recover + process death), deadlock (goroutine monitor) and, for blank-only input, empty output and nil; distinct key = hash(input bytes, entry point, mode); non-trivial = non-empty input"}
 }
 
 func init() {
 	props["C15"] = propCfg{Level: "exploration",
 		Assume: []string{"the speller (gen/spelling.go) writes the same forest in every notation"},
-		Rule: "cases: every labeled forest up to the node bound x 40 seeded (quick) / all 576 (thorough) spellings of the notation family + leading-blank variants, plus seeded random forests with bullet-like and blank-edged names x 8 spellings; one evaluation = all outputs (text, JSON, YAML, TOML for one root, dry-run, walk rows, strict verify verdict against a fixed directory; mkdir snapshot for a few spellings) of one spelling compared with the canonical spelling's; distinct key = hash(forest, spelling); non-trivial = merged forest has >= 2 nodes"}
+		Rule:   "cases: every labeled forest up to the node bound x 40 seeded (quick) / all 576 (thorough) spellings of the notation family + leading-blank variants, plus seeded random forests with bullet-like and blank-edged names x 8 spellings; one evaluation = all outputs (text, JSON, YAML, TOML for one root, dry-run, walk rows, strict verify verdict against a fixed directory; mkdir snapshot for a few spellings) of one spelling compared with the canonical spelling's; distinct key = hash(forest, spelling); non-trivial = merged forest has >= 2 nodes"}
 }
 
 func init() {
 	props["C04"] = propCfg{Level: "exploration",
 		Assume: []string{"encoding/json, gopkg.in/yaml.v3 and go-toml/v2 decoders are the 'standard decoders'; yaml.v3 resolving a plain << as !!merge while still yielding the string is accepted"},
-		Rule: "cases: every labeled forest up to the node bound (positional child indexing), every code point U+0000-U+02FF plus selected others at the start/middle/end of a name, and seeded random forests over quoting-hostile, Unicode, control, bullet, blank-edged and path-hostile alphabets (From-Root additionally with LF/CR names) x {JSON, YAML, TOML(single root)} x {From-Markdown, From-Root}; one evaluation = one real call decoded by the standard decoder and compared with the merged model forest; distinct key = hash(forest, entry point, format); non-trivial = >= 2 nodes after merge"}
+		Rule:   "cases: every labeled forest up to the node bound (positional child indexing), every code point U+0000-U+02FF plus selected others at the start/middle/end of a name, and seeded random forests over quoting-hostile, Unicode, control, bullet, blank-edged and path-hostile alphabets (From-Root additionally with LF/CR names) x {JSON, YAML, TOML(single root)} x {From-Markdown, From-Root}; one evaluation = one real call decoded by the standard decoder and compared with the merged model forest; distinct key = hash(forest, entry point, format); non-trivial = >= 2 nodes after merge"}
 	props["C05"] = propCfg{Level: "exploration",
 		Assume: []string{"names are single path elements (the statement's precondition for Path)"},
-		Rule: "cases: every labeled forest up to the node bound x 3 branch tuples, plus seeded random forests to 60 nodes, through WalkFromMarkdown, WalkFromRoot, WalkIterFromRoot and the three deprecated aliases; visit sequences compared with the model rows (Row, Branch, Name, Level, Path, HasChild) and with the text output's lines; a failing callback / break at every visit index k (exhaustive part) must stop after exactly k+1 visits and return the callback's error unchanged; distinct key = hash(forest, entry, branch tuple | stop index); non-trivial = >= 3 nodes, or any stop-at-k case"}
+		Rule:   "cases: every labeled forest up to the node bound x 3 branch tuples, plus seeded random forests to 60 nodes, through WalkFromMarkdown, WalkFromRoot, WalkIterFromRoot and the three deprecated aliases; visit sequences compared with the model rows (Row, Branch, Name, Level, Path, HasChild) and with the text output's lines; a failing callback / break at every visit index k (exhaustive part) must stop after exactly k+1 visits and return the callback's error unchanged; distinct key = hash(forest, entry, branch tuple | stop index); non-trivial = >= 3 nodes, or any stop-at-k case"}
 }
 
 func init() {
 	props["C06"] = propCfg{Level: "exploration",
 		Assume: []string{"the process runs as root on a Linux filesystem; symlinks are not part of the workload", "snapshots ignore directory mtimes"},
-		Rule: "cases: every labeled forest up to the node bound over {a.go,b} with distinct roots x 7 extension lists x target states {empty, missing nested, pre-populated, default via chdir} x {MkdirFromMarkdown, MkdirFromRoot, 2 aliases}; every non-empty subset of roots pre-existing as directory or as file; an over-long name at every node position and a target path through a regular file (OS refusals); plus seeded random forests over extension-bait/Unicode/quoting names; one evaluation = one real Mkdir judged on the jail's after-before snapshot; distinct key = hash(forest, route, ext list, target state | pre-existing mask | refusal position); non-trivial = >= 2 nodes, or any pre-existing / refusal case"}
+		Rule:   "cases: every labeled forest up to the node bound over {a.go,b} with distinct roots x 7 extension lists x target states {empty, missing nested, pre-populated, default via chdir} x {MkdirFromMarkdown, MkdirFromRoot, 2 aliases}; every non-empty subset of roots pre-existing as directory or as file; an over-long name at every node position and a target path through a regular file (OS refusals); plus seeded random forests over extension-bait/Unicode/quoting names; one evaluation = one real Mkdir judged on the jail's after-before snapshot; distinct key = hash(forest, route, ext list, target state | pre-existing mask | refusal position); non-trivial = >= 2 nodes, or any pre-existing / refusal case"}
 }
 
 func init() {
 	props["C07"] = propCfg{Level: "exploration",
 		Assume: []string{"an escape of more than five directory levels would leave the snapshotted jail (trees here are at most 5 levels deep)", "must-reject names: contain '/', equal '..', equal '.' below the root, or empty"},
-		Rule: "cases: every forest shape up to the node bound with one hostile name ('..', '.', 'a/b', '/abs', '../x', 'a/../../x', NUL, 256 bytes, ...) at every node position, plus seeded random forests with several hostile names (From-Root additionally empty and LF names) x {MkdirFromMarkdown, MkdirFromRoot} x {dry-run, real} x {simple, massive} x extension lists x target forms {absolute, default via chdir, relative}; one evaluation = one real call judged on the jail snapshot outside and inside the target; distinct key = hash(forest, route, mode, ext list, target form); every case is non-trivial (contains a hostile name)"}
+		Rule:   "cases: every forest shape up to the node bound with one hostile name ('..', '.', 'a/b', '/abs', '../x', 'a/../../x', NUL, 256 bytes, ...) at every node position, plus seeded random forests with several hostile names (From-Root additionally empty and LF names) x {MkdirFromMarkdown, MkdirFromRoot} x {dry-run, real} x {simple, massive} x extension lists x target forms {absolute, default via chdir, relative}; one evaluation = one real call judged on the jail snapshot outside and inside the target; distinct key = hash(forest, route, mode, ext list, target form); every case is non-trivial (contains a hostile name)"}
 }
 
 func init() {
 	props["C08"] = propCfg{Level: "exploration",
 		Assume: []string{"no symlinks, no unreadable directories (process runs as root)", "the lists' order is unspecified: compared as sets"},
-		Rule: "cases: every labeled forest up to the node bound with distinct roots x every prefix-closed subset of its node paths as directory state (exhaustive up to 6 nodes), leaves as files or directories, 0-3 extra files/directories inside roots, next to roots and nested, states produced by a real Mkdir with each extension list; x {strict, non-strict} x {explicit, default target} x {VerifyFromMarkdown, VerifyFromRoot, aliases}; plus seeded random forests; one evaluation = one real Verify whose verdict and parsed missing/extra lists are compared with the model for the first differing root, and the jail snapshot must be unchanged; distinct key = hash(forest, state, route, strictness, target form); every case is counted non-trivial (a directory state is materialised)"}
+		Rule:   "cases: every labeled forest up to the node bound with distinct roots x every prefix-closed subset of its node paths as directory state (exhaustive up to 6 nodes), leaves as files or directories, 0-3 extra files/directories inside roots, next to roots and nested, states produced by a real Mkdir with each extension list; x {strict, non-strict} x {explicit, default target} x {VerifyFromMarkdown, VerifyFromRoot, aliases}; plus seeded random forests; one evaluation = one real Verify whose verdict and parsed missing/extra lists are compared with the model for the first differing root, and the jail snapshot must be unchanged; distinct key = hash(forest, state, route, strictness, target form); every case is counted non-trivial (a directory state is materialised)"}
 }
 
 func init() {
 	props["C09"] = propCfg{Level: "exploration",
 		Assume: []string{"colour is disabled (fatih/color NoColor=true) so reports are compared as plain text", "the real run's name-rejection is observed on an empty target (only names can reject)"},
-		Rule: "cases: every labeled forest up to the node bound over {a.go,b} x extension lists, plus seeded random forests (a third with path-hostile names) through Output+dry-run, MkdirFromMarkdown+dry-run, MkdirFromRoot+dry-run (report captured from color.Output), Verify/Walk with a stray dry-run option, x {simple, massive}; one evaluation = one real dry-run call judged on the jail snapshot (must be unchanged), on its report (plain output + per-root counts equal to the model's, which are cross-checked against a real Mkdir's snapshot delta in a second jail) and on accept/reject agreement with the real run; distinct key = hash(forest, entry, mode, ext list, root); non-trivial = >= 2 nodes after merge"}
+		Rule:   "cases: every labeled forest up to the node bound over {a.go,b} x extension lists, plus seeded random forests (a third with path-hostile names) through Output+dry-run, MkdirFromMarkdown+dry-run, MkdirFromRoot+dry-run (report captured from color.Output), Verify/Walk with a stray dry-run option, x {simple, massive}; one evaluation = one real dry-run call judged on the jail snapshot (must be unchanged), on its report (plain output + per-root counts equal to the model's, which are cross-checked against a real Mkdir's snapshot delta in a second jail) and on accept/reject agreement with the real run; distinct key = hash(forest, entry, mode, ext list, root); non-trivial = >= 2 nodes after merge"}
 }
